@@ -203,12 +203,25 @@ def run(chk):
         if base.get("path") != "lut::Lut":
             continue
         label = "<Sop as %s>::from" % tr["s"]
-        for n in range(0, (3 if chk.tier == "quick" else 4)):
-            key = "%s n=%d" % (label, n)
+        cases = [(n, None) for n in range(0, (3 if chk.tier == "quick" else 4))]
+        # several 64-bit blocks: a few symbolic table bits at a time, the others 0 (so that whole blocks are empty)
+        for n in range(3, (9 if chk.tier == "quick" else 11)):
+            full_ = (1 << n) - 1
+            pos = sorted({full_, full_ - 1, full_ >> 1, (full_ >> 1) + 1, (full_ >> 2) + 2, 1 << (n - 1), 5 & full_, 0, 64 & full_, 65 & full_, 130 & full_, 200 & full_})
+            for k_ in range(0, len(pos), 3):
+                cases.append((n, tuple(pos[k_:k_ + 3])))
+        for n, window in cases:
+            key = "%s n=%d" % (label, n) if window is None else "%s n=%d table bits %s symbolic, others 0" % (label, n, list(window))
             try:
-                it = Interp(facts, max_paths=1024, max_steps=50000000)
+                it = Interp(facts, max_paths=1024, max_steps=500000000)
                 st = State()
-                lut = KD.mk(st, n, sym_words(n, "a"))
+                if window is None:
+                    words, support = sym_words(n, "a"), list(range(1 << n))
+                else:
+                    it.prune = True
+                    support = list(window)
+                    words = [W(64, bits=[B.atom("a[%d]" % (w_ * 64 + p_)) if (w_ * 64 + p_) in window else ZERO for p_ in range(64)]) for w_ in range(table_words(n))]
+                lut = KD.mk(st, n, words)
                 outs = it.call_body(bd, [arg_for(bd["sig"]["inputs"][0], lut, st)], st, {})
                 v, d = PROVED, ""
                 npaths = 0
@@ -220,7 +233,7 @@ def run(chk):
                         v, d = (REFUTED, "panics: %s" % o.info.get("msg")) if (o.kind != "return" and s_ == "sat") else (UNDECIDED, "path not decided")
                         break
                     npaths += 1
-                    f = [w_.get("a[%d]" % p_) for p_ in range(1 << n)]
+                    f = [(w_.get("a[%d]" % p_) if p_ in support else 0) for p_ in range(1 << n)]
                     if any(x is None for x in f):
                         v, d = UNDECIDED, "path does not determine the function"
                         break
@@ -229,10 +242,11 @@ def run(chk):
                     full = (1 << n) - 1
                     want = [(m, ~m & full) for m in range(1 << n) if f[m]]
                     if sorted(got) != want:
-                        v, d = REFUTED, "for the function %s the emitted cubes are %s, the minterm cover is %s" % (f, got, want)
+                        fd = f if n <= 3 else "with true assignments %s" % [p_ for p_ in range(1 << n) if f[p_]]
+                        v, d = REFUTED, "for the function %s the emitted cubes are %s, the minterm cover is %s" % (fd, sorted(got)[:8], want[:8])
                         break
-                if v == PROVED and npaths != 1 << (1 << n):
-                    v, d = UNDECIDED, "%d paths for %d functions" % (npaths, 1 << (1 << n))
+                if v == PROVED and npaths != 1 << len(support):
+                    v, d = UNDECIDED, "%d paths for %d functions" % (npaths, 1 << len(support))
             except Undecided as ex:
                 v, d = UNDECIDED, ex.cause
             chk.add("C14.L", key, v, d, where=where_of(bd))
@@ -242,7 +256,8 @@ def run(chk):
 def real_window(chk, facts, C):
     """C14.R: |, & and ! on Sops of real cubes over a two-variable window (analysis/window.py): meaning preserved and
     the result irredundant, on every canonical choice of operand cubes."""
-    from ..window import window_op, op_forms, pick_forms
+    from ..window import window_op, op_forms, pick_forms, to_lut_rules
+    to_lut_rules(chk, "C14.T", facts, C, "or", chk.tier)
     plan = (("std::ops::BitOr", "or", ((1, 1), (2, 1), (1, 2), (2, 2), (0, 3))),
             ("std::ops::BitAnd", "and", ((1, 1), (2, 1), (1, 2), (2, 2))),
             ("std::ops::Not", "not", ((0,), (1,), (2,), (3,))))
